@@ -80,6 +80,9 @@ pub enum FrameOp {
     Set(u8, i64),
     SetNested(u8, i64),
     Remove(u8),
+    /// `set("k2.x", v)`: a FLAT key that merely looks like a path below another key
+    SetDotted(u8, i64),
+    RemoveDotted(u8),
 }
 
 #[derive(Clone, Debug, Serialize, Deserialize)]
@@ -388,17 +391,30 @@ struct QueryOut {
     after: Snapshot,
     depth_before: usize,
     depth_after: usize,
+    /// search steps the query took
+    steps: u64,
 }
+
+/// Steps (goal expansions, told by the guarded hook in the search loops) one query may take. The
+/// search is exponential in max_depth on some rule sets; a run that would exceed the budget is
+/// abandoned as inconclusive — deterministically, by count, never by wall-clock.
+const SEARCH_STEP_BUDGET: u64 = 150_000;
+const BUDGET: &str = "\u{0}search-step-budget-exhausted";
 
 fn run_query(engine: &mut BackwardEngine, goal: &str, facts: &mut Facts, rete: &Option<Arc<Mutex<IncrementalEngine>>>) -> Result<QueryOut, String> {
     let depth_before = facts.verif_undo_depth();
-    let r = budget::with_budget(2_000_000, || match rete {
+    rust_rule_engine::verif_hooks::set_step(Some(Box::new(|_site| budget::tick())));
+    let spent_before = budget::spent();
+    let r = budget::with_budget(SEARCH_STEP_BUDGET, || match rete {
         Some(e) => engine.query_with_rete_engine(goal, facts, Some(e.clone())),
         None => engine.query(goal, facts),
     });
+    rust_rule_engine::verif_hooks::set_step(None);
+    let steps = budget::spent() - spent_before;
     match r {
-        Ok(Ok(q)) => Ok(QueryOut { provable: q.provable, after: snapshot(facts), depth_before, depth_after: facts.verif_undo_depth() }),
+        Ok(Ok(q)) => Ok(QueryOut { provable: q.provable, after: snapshot(facts), depth_before, depth_after: facts.verif_undo_depth(), steps }),
         Ok(Err(e)) => Err(format!("query returned an error: {e}")),
+        Err(p) if p.is::<budget::StepBudgetExceeded>() => Err(BUDGET.to_string()),
         Err(p) => Err(format!("query panicked: {}", panic_text(&p))),
     }
 }
@@ -596,9 +612,18 @@ fn run_search(
                 }
                 let out = match run_query(&mut engine, &gt, &mut facts, &rete) {
                     Ok(o) => o,
+                    Err(e) if e == BUDGET => {
+                        obs.count("probe.run_abandoned_search_step_budget_exhausted");
+                        return Ok(());
+                    }
                     Err(e) => return Err(Violation::new(prop, "query.returns", site, "query-error-or-panic", format!("`{gt}`: {e}"), step)),
                 };
                 queries += 1;
+                for (n, name) in [(100u64, "probe.search_took_100_steps_or_more"), (10_000, "probe.search_took_10000_steps_or_more")] {
+                    if out.steps >= n {
+                        obs.count(name);
+                    }
+                }
                 obs.fp_str(&format!("{}|{:?}", out.provable, out.after));
                 judge(prop, site, types, rules, goal, &before, &out, max_depth, strategy, max_solutions, step, obs, "long-lived engine", )?;
                 // a freshly built engine on a deep copy of the facts as they stood
@@ -608,6 +633,10 @@ fn run_search(
                     let rete2: Option<Arc<Mutex<IncrementalEngine>>> = if attach_rete { Some(Arc::new(Mutex::new(IncrementalEngine::new()))) } else { None };
                     match run_query(&mut e2, &gt, &mut f2, &rete2) {
                         Ok(o) => o,
+                        Err(e) if e == BUDGET => {
+                            obs.count("probe.run_abandoned_search_step_budget_exhausted");
+                            return Ok(());
+                        }
                         Err(e) => return Err(Violation::new(prop, "query.returns", site, "query-error-or-panic", format!("fresh engine, `{gt}`: {e}"), step)),
                     }
                 };
@@ -637,6 +666,10 @@ fn run_search(
                                 obs.count("probe.returned_facts_differ_between_hash_seeds");
                             }
                             obs.count("probe.alt_hash_seed_query");
+                        }
+                        Ok(Err(e)) if e == BUDGET => {
+                            obs.count("probe.run_abandoned_search_step_budget_exhausted");
+                            return Ok(());
                         }
                         Ok(Err(e)) => return Err(Violation::new(prop, "query.returns", site, "query-error-or-panic", format!("fresh engine under hash seed {hs}, `{gt}`: {e}"), step)),
                         Err(_) => return Err(Violation::new(prop, "query.returns", site, "query-error-or-panic", format!("fresh engine under hash seed {hs}: thread died"), step)),
@@ -721,6 +754,17 @@ fn run_frames(ops: &[FrameOp], obs: &mut Obs) -> Result<(), Violation> {
             FrameOp::Remove(k) => {
                 facts.remove(&key(*k));
                 model.remove(&key(*k));
+            }
+            FrameOp::SetDotted(k, v) => {
+                let dk = format!("{}.x", key(*k));
+                facts.set(&dk, Value::Integer(*v));
+                model.insert(dk, Value::Integer(*v));
+                obs.count("probe.flat_dotted_key_written");
+            }
+            FrameOp::RemoveDotted(k) => {
+                let dk = format!("{}.x", key(*k));
+                facts.remove(&dk);
+                model.remove(&dk);
             }
         }
         let got = snapshot(&facts);
@@ -859,7 +903,7 @@ impl World for BwdWorld {
         let mut probes = vec!["fault.rule_action_errors_midway", "probe.alt_hash_seed_query", "probe.returned_facts_differ_between_hash_seeds", "probe.history_of_two_or_more_queries", "probe.caller_changed_a_fact", "probe.same_query_asked_again", "probe.retraction_in_attached_engine"];
         match prop {
             "C09" => probes.extend(["probe.provable_query", "probe.complete_clause_applicable", "probe.derivation_of_height_2_or_more", "probe.derivation_deeper_than_max_depth"]),
-            "C10" => probes.extend(["probe.unprovable_query", "probe.failed_query_with_derivable_intermediate_facts", "probe.nested_frame_committed", "probe.frame_rolled_back"]),
+            "C10" => probes.extend(["probe.unprovable_query", "probe.failed_query_with_derivable_intermediate_facts", "probe.nested_frame_committed", "probe.frame_rolled_back", "probe.flat_dotted_key_written"]),
             "C11" => probes.extend(["probe.negated_query", "probe.fact_retyped_same_rendering"]),
             _ => {}
         }
@@ -871,7 +915,7 @@ impl World for BwdWorld {
                    goals, max_depth 0-6, DFS/BFS/iterative, max_solutions 1/3, memoisation on/off, optionally an attached RETE engine; \
                    histories of 1-7 steps (query, caller changes/removes/asserts a fact, insert/retract in the attached engine). Every \
                    query runs on the long-lived engine, on a fresh engine in the same process and on fresh engines under 3 further \
-                   hash seeds. C10 additionally: 1 run in 3 drives begin/commit/rollback/set/set_nested/remove (<=10 ops, 3 keys) on a \
+                   hash seeds. C10 additionally: 1 run in 3 drives begin/commit/rollback/set/set_nested/remove (<=10 ops, 3 keys plus flat dotted keys `k.x` that merely look like paths below them) on a \
                    Facts store against a stack-of-snapshots model. Non-trivial iff >=1 query over >=2 rules (frames: nesting >=2); \
                    distinct = fingerprint of the trace"
                 .into(),
@@ -894,13 +938,15 @@ impl World for BwdWorld {
         if prop == "C10" && rng.chance(1, 3) {
             let n = 2 + rng.usize(9);
             let ops = (0..n)
-                .map(|_| match rng.weighted(&[22, 12, 16, 25, 12, 10]) {
+                .map(|_| match rng.weighted(&[22, 12, 16, 22, 12, 10, 10, 4]) {
                     0 => FrameOp::Begin,
                     1 => FrameOp::Commit,
                     2 => FrameOp::Rollback,
                     3 => FrameOp::Set(rng.below(3) as u8, rng.range(1, 9)),
                     4 => FrameOp::SetNested(rng.below(3) as u8, rng.range(1, 9)),
-                    _ => FrameOp::Remove(rng.below(3) as u8),
+                    5 => FrameOp::Remove(rng.below(3) as u8),
+                    6 => FrameOp::SetDotted(rng.below(3) as u8, rng.range(1, 9)),
+                    _ => FrameOp::RemoveDotted(rng.below(3) as u8),
                 })
                 .collect();
             return BwdTrace::Frames { hash_seed, ops };
